@@ -2,11 +2,16 @@ package main
 
 import (
 	"bytes"
+	"context"
 	"encoding/json"
 	"fmt"
 	"io"
 	"log"
+	"os"
+	"os/exec"
+	"path/filepath"
 	"strings"
+	"time"
 
 	z80 "github.com/koron-go/z80"
 	"github.com/koron-go/z80/internal/tinycpm"
@@ -408,15 +413,184 @@ func checkC18(c *Ctx) {
 	wk = [2]int{0, 0}
 	// the empty program: JP 0 only
 	run("exit", nil)
+	toolRuns := c18Tool(c, calls)
+	n += toolRuns
+	nt += toolRuns
 	c.Evaluations = n
 	c.Nontrivial = nt
 	c.States = n
 	c.Transitions = n
 	c.Traces = n
 	c.Exhaustive = true
-	c.Rule = fmt.Sprintf("real tinycpm machine + real CPU.Run, a breakpoint after every call: function 2 with all 256 E values; function 9 with every string over the alphabet {00,23,25,7F,80,FF,'A'} of length 0..3 (%d strings) at addresses {0200,7FFF,FD00} and ending right below the BDOS entry (terminator at FE05), every single non-'$' byte value, lengths {0,1,255,256,257,4095,4096} across page boundaries; all call sequences of length <=%d over a 15-letter alphabet {fn2(x), fn2('$'), fn2(0), 3 fn9 strings, unsupported fn 0/1/10/255, OUT (0)/(1)/(255), IN (0)/(7)}; the host replacing the console writer (SetStdout) between two calls, for every pair of writer kinds {bytes.Buffer, a writer with only Write, such a writer inside whose Write a second independent tinycpm machine prints to its own console}; every writer kind alone with all 256 byte values and all call pairs; exit via JP 0. Oracle: console writer receives exactly the specified bytes in order; after every call PC is the instruction after the CALL, SP and the caller's code bytes are unchanged; final halt at FF03; exactly one warning per port!=0 write and per port read; nothing else in memory changed. Non-trivial: every case with at least one call (counted).", len(strs), depth)
+	c.Rule = fmt.Sprintf("real tinycpm machine + real CPU.Run, a breakpoint after every call: function 2 with all 256 E values; function 9 with every string over the alphabet {00,23,25,7F,80,FF,'A'} of length 0..3 (%d strings) at addresses {0200,7FFF,FD00} and ending right below the BDOS entry (terminator at FE05), every single non-'$' byte value, lengths {0,1,255,256,257,4095,4096} across page boundaries; all call sequences of length <=%d over a 15-letter alphabet {fn2(x), fn2('$'), fn2(0), 3 fn9 strings, unsupported fn 0/1/10/255, OUT (0)/(1)/(255), IN (0)/(7)}; the host replacing the console writer (SetStdout) between two calls, for every pair of writer kinds {bytes.Buffer, a writer with only Write, such a writer inside whose Write a second independent tinycpm machine prints to its own console}; every writer kind alone with all 256 byte values and all call pairs; exit via JP 0; the command-line runner cmd/zexdoc (built from the current tree) on generated program images as zexdoc.cim / zexall.cim (-all), stdout through a pipe: all call pairs, long output (0..70000 bytes), runs that end abnormally (unsupported function, HALT in the program, unwritable -memprof path): stdout carries exactly the bytes printed before the end, the exit status is 0 exactly for the normal end. Oracle: console writer receives exactly the specified bytes in order; after every call PC is the instruction after the CALL, SP and the caller's code bytes are unchanged; final halt at FF03; exactly one warning per port!=0 write and per port read; nothing else in memory changed. Non-trivial: every case with at least one call (counted).", len(strs), depth)
 	c.Bound = fmt.Sprintf("call sequences <=%d", depth)
 	c.Sample(c18Case{Calls: []c18Call{{Kind: "fn9", Str: []uint8{0xFF, 0x00, 'z'}, Addr: 0x03FE}, {Kind: "out", Port: 1}, {Kind: "fn2", E: '$'}}})
 	c.Assume("strings lie outside page 0, the BIOS pages and the stack (statement: 'arbitrary addresses outside the BIOS pages')")
 	c.Assume("an unsupported function number ends the sequence (the BIOS halts); only 'no output, no panic' is required of it")
+}
+
+// c18Tool drives the repository's command-line runner: the program image is written as zexdoc.cim (or
+// zexall.cim with -all) into an empty directory, the tool runs there with stdout on a pipe. Whatever the
+// program printed before the run ended - normally or not - must be on stdout, byte for byte.
+func c18Tool(c *Ctx, alphabet []c18Call) int64 {
+	bin := os.Getenv("VERIF_ZEXDOC")
+	if _, err := os.Stat(bin); bin == "" || err != nil {
+		c.Set("command_line_runner", "not built (bin/check C18 builds cmd/zexdoc from the current tree); tool pass skipped")
+		return 0
+	}
+	root := os.Getenv("VERIF_RUN_DIR")
+	if root == "" {
+		root = filepath.Join(c.Verif, "build", "tmp")
+	}
+	dir := filepath.Join(root, "c18-tool")
+	os.MkdirAll(dir, 0o755)
+	defer os.RemoveAll(dir)
+	type tcase struct {
+		Calls   []c18Call `json:"calls"`
+		End     string    `json:"end"` // jp0, halt, none (falls into an unsupported call)
+		All     bool      `json:"all_flag"`
+		MemProf bool      `json:"unwritable_memprof"`
+	}
+	var n int64
+	one := func(tc tcase) bool {
+		// assemble
+		img := []uint8{}
+		pc := uint16(tinycpm.Start)
+		strs := map[uint16][]uint8{}
+		var want []uint8
+		abnormal := tc.MemProf
+		for _, cl := range tc.Calls {
+			switch cl.Kind {
+			case "fn2":
+				img = append(img, 0x0E, 0x02, 0x1E, cl.E, 0xCD, 0x05, 0x00)
+				want = append(want, cl.E)
+			case "fn9":
+				img = append(img, 0x0E, 0x09, 0x11, uint8(cl.Addr), uint8(cl.Addr>>8), 0xCD, 0x05, 0x00)
+				strs[cl.Addr] = cl.Str
+				want = append(want, cl.Str...)
+			case "unsupported":
+				img = append(img, 0x0E, cl.Fn, 0x1E, 0x41, 0xCD, 0x05, 0x00)
+				abnormal = true
+			case "out":
+				img = append(img, 0x3E, 0x58, 0xD3, cl.Port)
+				if cl.Port == 0 {
+					want = append(want, 0x58)
+				}
+			case "in":
+				img = append(img, 0xDB, cl.Port)
+			}
+			if cl.Kind == "unsupported" {
+				break
+			}
+		}
+		switch tc.End {
+		case "halt":
+			img = append(img, 0x76)
+			abnormal = true
+		default:
+			img = append(img, 0xC3, 0x00, 0x00)
+		}
+		_ = pc
+		full := make([]uint8, 0)
+		full = append(full, img...)
+		for a, sdata := range strs {
+			off := int(a) - tinycpm.Start
+			for len(full) < off+len(sdata)+1 {
+				full = append(full, 0)
+			}
+			copy(full[off:], sdata)
+			full[off+len(sdata)] = '$'
+		}
+		name := "zexdoc.cim"
+		var args []string
+		if tc.All {
+			name = "zexall.cim"
+			args = append(args, "-all")
+		}
+		if tc.MemProf {
+			args = append(args, "-memprof", filepath.Join(dir, "no", "such", "dir", "mem.prof"))
+		}
+		os.Remove(filepath.Join(dir, "zexdoc.cim"))
+		os.Remove(filepath.Join(dir, "zexall.cim"))
+		if err := os.WriteFile(filepath.Join(dir, name), full, 0o644); err != nil {
+			c.Capped("framework: " + err.Error())
+			return false
+		}
+		ctx, cancel := context.WithTimeout(context.Background(), 2*time.Minute)
+		defer cancel()
+		cmd := exec.CommandContext(ctx, bin, args...)
+		cmd.Dir = dir
+		var so, se bytes.Buffer
+		cmd.Stdout, cmd.Stderr = &so, &se
+		err := cmd.Run()
+		n++
+		var d []string
+		if !bytes.Equal(so.Bytes(), want) {
+			g, w := so.Bytes(), want
+			if len(g) > 24 {
+				g = g[:24]
+			}
+			if len(w) > 24 {
+				w = w[:24]
+			}
+			d = append(d, fmt.Sprintf("stdout of the runner: want %d bytes [% X...] got %d bytes [% X...] (exit: %v, stderr: %q)", len(want), w, so.Len(), g, err, strings.TrimSpace(se.String())))
+		}
+		if (err != nil) != abnormal {
+			d = append(d, fmt.Sprintf("exit status: %v; the run ended %s (stderr: %q)", err, map[bool]string{true: "abnormally, a non-zero status is expected", false: "with JP 0, status 0 is expected"}[abnormal], strings.TrimSpace(se.String())))
+		}
+		if len(d) > 0 {
+			var names []string
+			for _, cl := range tc.Calls {
+				names = append(names, cl.String())
+			}
+			c.Report("c18/tool", n, "", tc, append([]string{fmt.Sprintf("cmd/zexdoc %v on the image of %v; end: %s", args, names, tc.End)}, d...))
+			return false
+		}
+		return true
+	}
+	// strings must lie above the code: relocate the alphabet's strings
+	reloc := func(cl c18Call, slot int) c18Call {
+		if cl.Kind == "fn9" {
+			cl.Addr = uint16(0x0400 + 0x40*slot)
+		}
+		return cl
+	}
+	ok := true
+	for i, a := range alphabet {
+		for j, b := range alphabet {
+			if !ok {
+				return n
+			}
+			if a.Kind == "unsupported" {
+				continue
+			}
+			ok = one(tcase{Calls: []c18Call{reloc(a, 0), reloc(b, 1)}, End: "jp0", All: (i+j)%2 == 1})
+		}
+	}
+	// abnormal ends after some output
+	for _, a := range alphabet[:6] {
+		if !ok {
+			return n
+		}
+		ok = one(tcase{Calls: []c18Call{reloc(a, 0)}, End: "halt"}) &&
+			one(tcase{Calls: []c18Call{reloc(a, 0), reloc(a, 1)}, End: "jp0", MemProf: true}) &&
+			one(tcase{Calls: []c18Call{reloc(a, 0), {Kind: "unsupported", Fn: 3}}, End: "jp0"})
+	}
+	// long output: around the usual buffer sizes
+	for _, l := range []int{0, 1, 4095, 4096, 4097, 8192, 65536 - 0x0400 - 0x1100, 16384} {
+		if !ok {
+			return n
+		}
+		sdata := make([]uint8, l)
+		for i := range sdata {
+			sdata[i] = uint8(i*11 + 5)
+			if sdata[i] == '$' {
+				sdata[i] = '!'
+			}
+		}
+		ok = one(tcase{Calls: []c18Call{{Kind: "fn9", Str: sdata, Addr: 0x0400}}, End: "jp0"}) &&
+			one(tcase{Calls: []c18Call{{Kind: "fn9", Str: sdata, Addr: 0x0400}}, End: "halt"})
+	}
+	c.Set("command_line_runner_runs", n)
+	return n
 }
